@@ -17,7 +17,7 @@ macro_rules! abstract_ty {
         pub struct $n<I: Interner> { _p: core::marker::PhantomData<I> }
     )* } }
 }
-abstract_ty!(Ty, Substitution, Const, Lifetime, DynTy, FnPointer, AdtId, AssocTypeId, OpaqueTyId, FnDefId, ClosureId, CoroutineId, ForeignDefId);
+abstract_ty!(Ty, Substitution, Const, ConcreteConst, Lifetime, DynTy, FnPointer, AdtId, AssocTypeId, OpaqueTyId, FnDefId, ClosureId, CoroutineId, ForeignDefId);
 #[verifier::external_body] pub struct Scalar { _p: () }
 #[verifier::external_body] pub struct Mutability { _p: () }
 #[verifier::external_body] pub struct InferenceVar { _p: () }
@@ -36,6 +36,8 @@ abstract_ty!(Ty, Substitution, Const, Lifetime, DynTy, FnPointer, AdtId, AssocTy
 //@TYPE file=chalk-ir/src/lib.rs kind=struct name=OpaqueTy attrs="#[verifier::reject_recursive_types(I)]"
 //@TYPE file=chalk-ir/src/lib.rs kind=enum name=AliasTy attrs="#[verifier::reject_recursive_types(I)]"
 //@TYPE file=chalk-ir/src/lib.rs kind=enum name=TyKind attrs="#[verifier::reject_recursive_types(I)]"
+//@TYPE file=chalk-ir/src/lib.rs kind=struct name=ConstData attrs="#[verifier::reject_recursive_types(I)]"
+//@TYPE file=chalk-ir/src/lib.rs kind=enum name=ConstValue attrs="#[verifier::reject_recursive_types(I)]"
 //@TYPE file=chalk-engine/src/slg.rs kind=struct name=MayInvalidate attrs="#[verifier::reject_recursive_types(I)]"
 
 // ---- abstract views
@@ -47,7 +49,24 @@ pub uninterp spec fn const_canonical<I: Interner>(c: Const<I>) -> bool;
 /// argument lists: pairwise "instance of" (defined by aggregate_generic_args over the arguments; abstract here)
 pub uninterp spec fn substs_instance<I: Interner>(new: Substitution<I>, cur: Substitution<I>) -> bool;
 pub uninterp spec fn substs_canonical<I: Interner>(s: Substitution<I>) -> bool;
-pub uninterp spec fn const_instance<I: Interner>(new: Const<I>, cur: Const<I>) -> bool;
+pub uninterp spec fn const_data<I: Interner>(c: Const<I>) -> ConstData<I>;
+pub uninterp spec fn const_height<I: Interner>(c: Const<I>) -> nat;
+/// the interner's notion of equal constant values (`ConcreteConst::const_eq`)
+pub uninterp spec fn spec_const_eq<I: Interner>(a: ConcreteConst<I>, ty: Ty<I>, b: ConcreteConst<I>) -> bool;
+impl<I: Interner> Const<I> {
+    /// constants are finite trees too; a canonical constant has a canonical type and is not an inference variable
+    #[verifier::external_body]
+    pub fn data(&self, interner: I) -> (r: &ConstData<I>)
+        ensures *r == const_data(*self), ty_height(r.ty) < const_height(*self),
+            const_canonical(*self) ==> ty_canonical(r.ty) && !(r.value is InferenceVar),
+    { unimplemented!() }
+}
+impl<I: Interner> ConcreteConst<I> {
+    #[verifier::external_body]
+    pub fn const_eq(&self, ty: &Ty<I>, other: &ConcreteConst<I>, interner: I) -> (r: bool)
+        ensures r == spec_const_eq(*self, *ty, *other)
+    { unimplemented!() }
+}
 
 impl<I: Interner> Ty<I> {
     /// types are finite trees; children of a canonical type are canonical and its head is not an inference variable
@@ -56,7 +75,8 @@ impl<I: Interner> Ty<I> {
         ensures
             *r == ty_kind(*self),
             match *r {
-                TyKind::Slice(t) | TyKind::Raw(_, t) | TyKind::Ref(_, _, t) | TyKind::Array(t, _) => ty_height(t) < ty_height(*self),
+                TyKind::Slice(t) | TyKind::Raw(_, t) | TyKind::Ref(_, _, t) => ty_height(t) < ty_height(*self),
+                TyKind::Array(t, c) => ty_height(t) < ty_height(*self) && const_height(c) < ty_height(*self),
                 _ => true,
             },
             ty_canonical(*self) ==> match *r {
@@ -99,7 +119,20 @@ pub open spec fn ty_instance<I: Interner>(new: Ty<I>, cur: Ty<I>) -> bool
         (TyKind::Raw(m, a), TyKind::Raw(n, b)) => m == n && ty_height(b) < ty_height(cur) && ty_instance(a, b),
         // (lifetimes: the check is always conservative about them, so nothing is required here)
         (TyKind::Ref(m, _, a), TyKind::Ref(n, _, b)) => m == n && ty_height(b) < ty_height(cur) && ty_instance(a, b),
-        (TyKind::Array(a, c), TyKind::Array(b, d)) => ty_height(b) < ty_height(cur) && ty_instance(a, b) && const_instance(c, d),
+        (TyKind::Array(a, c), TyKind::Array(b, d)) => ty_height(b) < ty_height(cur) && ty_instance(a, b) && const_height(d) < ty_height(cur) && const_instance(c, d),
+        _ => false,
+    }
+}
+/// a constant of a new answer is an instance of the guidance's constant: the types are, and the guidance has a variable
+/// there, or both are the same placeholder, or both are concrete values the interner calls equal
+pub open spec fn const_instance<I: Interner>(new: Const<I>, cur: Const<I>) -> bool
+    decreases const_height(cur)
+{
+    &&& ty_height(const_data(cur).ty) < const_height(cur) && ty_instance(const_data(new).ty, const_data(cur).ty)
+    &&& match (const_data(new).value, const_data(cur).value) {
+        (_, ConstValue::BoundVar(_)) => true,
+        (ConstValue::Placeholder(p), ConstValue::Placeholder(q)) => p == q,
+        (ConstValue::Concrete(a), ConstValue::Concrete(b)) => spec_const_eq(a, const_data(new).ty, b),
         _ => false,
     }
 }
@@ -123,12 +156,7 @@ impl<I: Interner> MayInvalidate<I> {
         ensures !r ==> new_name == current_name && substs_instance(*new_substitution, *current_substitution),
     { unimplemented!() }
 
-    /// callee contract (`aggregate_consts` destructures through `let ConstData {..} = c.data(..)`; kept abstract)
-    #[verifier::external_body]
-    fn aggregate_consts(&mut self, new: &Const<I>, current: &Const<I>) -> (r: bool)
-        requires const_canonical(*new), const_canonical(*current),
-        ensures !r ==> const_instance(*new, *current),
-    { unimplemented!() }
+//@FN file=chalk-engine/src/slg.rs within="^impl<I: Interner> MayInvalidate<I>$" fn=aggregate_consts contract=aggregate_consts path=MayInvalidate::aggregate_consts
 }
 
 //@CONTRACT aggregate_tys
@@ -138,6 +166,11 @@ impl<I: Interner> MayInvalidate<I> {
         // C17: "no future answer can change the guidance" is only ever claimed for instances
         !r ==> ty_instance(*new, *current),
     decreases ty_height(*current),
+//@END
+//@CONTRACT aggregate_consts
+    requires const_canonical(*new), const_canonical(*current),
+    ensures !r ==> const_instance(*new, *current),
+    decreases const_height(*current),
 //@END
 //@CONTRACT aggregate_placeholders
     ensures r == (*new != *current),
@@ -152,6 +185,9 @@ impl<I: Interner> MayInvalidate<I> {
 //@END
 
 } // verus!
+impl<I: Interner> core::fmt::Debug for Const<I> {
+    fn fmt(&self, _f: &mut core::fmt::Formatter<'_>) -> core::fmt::Result { Ok(()) }
+}
 impl<I: Interner> core::fmt::Debug for Ty<I> {
     fn fmt(&self, _f: &mut core::fmt::Formatter<'_>) -> core::fmt::Result { Ok(()) }
 }
